@@ -1,4 +1,5 @@
 import TxVerif.Props.C05Layout
+import TxVerif.Props.C05Writer
 open TxVerif
 #print axioms layout_roundtrip
 #print axioms layout_roundtrip_via
@@ -9,3 +10,16 @@ open TxVerif
 #print axioms layout_entry
 #print axioms layout_page_bound
 #print axioms layout_append
+#print axioms writer_persisted_prefix
+#print axioms writer_refines_layout
+#print axioms writer_tail_offset
+#print axioms writer_beyond_tail
+#print axioms writer_fifo
+#print axioms writer_fifo_disk
+#print axioms writer_fifo_via
+#print axioms writer_fifo_ids
+#print axioms writer_output_events_only
+#print axioms flush_mid_event_harmless
+#print axioms flush_anywhere_harmless
+#print axioms writer_chunks_flatten
+#print axioms writer_chunking_independent
